@@ -2,6 +2,7 @@
   C14 helper lemmas, part 3: the byte-level path searcher against `locateR` on the tree.
 -/
 import SonicSpec.Proofs.SearchSkip
+import SonicSpec.Proofs.SearchKey
 namespace SonicSpec.Search
 open SonicSpec SonicSpec.Json
 
@@ -31,12 +32,16 @@ theorem encodeUnits_plain (b : Bytes) : encodeUnits none (b.map CU.b) = b := by
 theorem unescapeKey_plain {b : Bytes} (h : hasBackslash b = false) : unescapeKey b = b := by
   unfold unescapeKey; rw [codeUnits_plain b h, encodeUnits_plain]
 
-theorem matchKey_iff (body k : Bytes) : matchKey body k = true ↔ unescapeKey body = k := by
+/-- `matchKey_eq_decode_compare`: on a key literal whose escapes `unescape` can decode, the native
+    comparison (memcmp fast path, or the piecewise loop) decides "decoded literal = wanted key" -/
+theorem matchKey_eq {body k : Bytes} (h : keyWF (body.length + 1) body = true) :
+    matchKey body k = if unescapeKey body = k then KeyCmp.eq else KeyCmp.ne := by
   unfold matchKey
-  by_cases h : hasBackslash body = true
-  · simp [h]
-  · have h' : hasBackslash body = false := by simpa using h
-    simp [h', unescapeKey_plain h']
+  by_cases hb : hasBackslash body = true
+  · simp only [hb, if_true]; exact matchLoop_eq _ body k h
+  · have h' : hasBackslash body = false := by simpa using hb
+    simp only [h', unescapeKey_plain h']
+    by_cases e : body = k <;> simp [e]
 
 /-! ## the two search loops -/
 
@@ -68,11 +73,12 @@ theorem numFollow_of_skipWs_nil {r : Bytes} (h : skipWs r = []) : NumFollow r :=
 
 /-- the value `w` is what the strict parser reads at position `pos` (after white space), leaving `rest` -/
 def At (F : Nat) (w : JVal) (pos rest : Bytes) : Prop :=
-  ∃ m, m ≤ F ∧ parseVal m (skipWs pos) = some (w, rest) ∧ NumFollow rest
+  ∃ m, m ≤ F ∧ parseVal m (skipWs pos) = some (w, rest) ∧ NumFollow rest ∧ keysWF w = true
 
 /-- `skip_in_obj` against `lookupKey` -/
 theorem searchObj_members (F : Nat) (k : Bytes) : ∀ n, n ≤ F → ∀ (fuel : Nat), n ≤ fuel →
     ∀ (pos : Bytes) (kvs : List (Bytes × JVal)) (r : Bytes), parseMembers n (skipWs pos) = some (kvs, r) →
+    keysWFMembers kvs = true →
     match lookupKey k kvs with
     | some w => ∃ p, searchObj k fuel pos = .found p ∧ ∃ rest, At F w p rest
     | none => searchObj k fuel pos = .notFound := by
@@ -80,7 +86,7 @@ theorem searchObj_members (F : Nat) (k : Bytes) : ∀ n, n ≤ F → ∀ (fuel :
   induction n with
   | zero => intro _ fuel _ pos kvs r h; rw [parseMembers_zero] at h; cases h
   | succ n ih =>
-    intro hF fuel hfuel pos kvs r h
+    intro hF fuel hfuel pos kvs r h hwf
     obtain ⟨t, kb, r1, r2, v, r3, hs, hk, h58, hv, hrest⟩ := parseMembers_inv h
     obtain ⟨fuel', rfl⟩ : ∃ f, fuel = f + 1 := ⟨fuel - 1, by omega⟩
     have hfollow : NumFollow r3 := by
@@ -89,23 +95,31 @@ theorem searchObj_members (F : Nat) (k : Bytes) : ∀ n, n ≤ F → ∀ (fuel :
       · exact numFollow_of_skipWs hc (by decide)
     have hskip := skipFast_of_parse hv hfollow
     have hstr := strEnd_of_scanString t hk
+    have hwf3 : keyWF (kb.length + 1) kb = true ∧ keysWF v = true ∧
+        (∀ kvs', kvs = (kb, v) :: kvs' → keysWFMembers kvs' = true) := by
+      rcases hrest with ⟨t', kvs', _, _, rfl⟩ | ⟨_, rfl⟩
+      · simp only [keysWFMembers, Bool.and_eq_true] at hwf
+        exact ⟨hwf.1.1, hwf.1.2, fun _ e => by cases e; exact hwf.2⟩
+      · simp only [keysWFMembers, Bool.and_eq_true] at hwf
+        exact ⟨hwf.1.1, hwf.1.2, fun _ e => by cases e; rfl⟩
+    obtain ⟨hkwf, hvwf, hrestwf⟩ := hwf3
+    have hmk := matchKey_eq (k := k) hkwf
     rw [searchObj]
     simp only [hs, hstr, h58]
-    by_cases hm : matchKey kb k = true
-    · have hkey := (matchKey_iff kb k).1 hm
+    by_cases hkey : unescapeKey kb = k
+    · rw [if_pos hkey] at hmk
       rcases hrest with ⟨t', kvs', hc, hmem, rfl⟩ | ⟨hc, rfl⟩ <;>
       · simp only [lookupKey, hkey, if_true]
-        simp [hm]
-        exact ⟨r3, n, by omega, hv, hfollow⟩
-    · have hkey : ¬ unescapeKey kb = k := fun e => hm ((matchKey_iff kb k).2 e)
-      have hm' : matchKey kb k = false := by simpa using hm
+        simp [hmk]
+        exact ⟨r3, n, by omega, hv, hfollow, hvwf⟩
+    · rw [if_neg hkey] at hmk
       rcases hrest with ⟨t', kvs', hc, hmem, rfl⟩ | ⟨hc, rfl⟩
       · simp only [lookupKey, hkey, if_false]
-        have := ih (by omega) fuel' (by omega) t' kvs' r hmem
-        simp [hm', hskip, hc]
+        have := ih (by omega) fuel' (by omega) t' kvs' r hmem (hrestwf _ rfl)
+        simp [hmk, hskip, hc]
         exact this
       · simp only [lookupKey, hkey, if_false]
-        simp [hm', hskip, hc]
+        simp [hmk, hskip, hc]
 
 theorem parseVal_nil (n : Nat) : parseVal n [] = none := by
   cases n with
@@ -114,7 +128,7 @@ theorem parseVal_nil (n : Nat) : parseVal n [] = none := by
 
 /-- `skip_in_arr` against list indexing -/
 theorem searchArr_elems (F : Nat) : ∀ n, n ≤ F → ∀ (i : Nat) (pos : Bytes) (xs : List JVal) (r : Bytes),
-    parseElems n (skipWs pos) = some (xs, r) →
+    parseElems n (skipWs pos) = some (xs, r) → keysWFElems xs = true →
     match xs[i]? with
     | some w => ∃ p, searchArr i pos = .found p ∧ ∃ rest, At F w p rest
     | none => searchArr i pos = .notFound := by
@@ -122,23 +136,29 @@ theorem searchArr_elems (F : Nat) : ∀ n, n ≤ F → ∀ (i : Nat) (pos : Byte
   induction n with
   | zero => intro _ i pos xs r h; rw [parseElems_zero] at h; cases h
   | succ n ih =>
-    intro hF i pos xs r h
+    intro hF i pos xs r h hwf
     obtain ⟨v, r1, hv, hrest⟩ := parseElems_inv h
     have hfollow : NumFollow r1 := by
       rcases hrest with ⟨t', _, hc, _, _⟩ | ⟨hc, _⟩
       · exact numFollow_of_skipWs hc (by decide)
       · exact numFollow_of_skipWs hc (by decide)
+    have hwf2 : keysWF v = true ∧ (∀ xs', xs = v :: xs' → keysWFElems xs' = true) := by
+      rcases hrest with ⟨_, _, _, _, rfl⟩ | ⟨_, rfl⟩
+      · simp only [keysWFElems, Bool.and_eq_true] at hwf
+        exact ⟨hwf.1, fun _ e => by cases e; exact hwf.2⟩
+      · simp only [keysWFElems, Bool.and_eq_true] at hwf
+        exact ⟨hwf.1, fun _ e => by cases e; rfl⟩
     cases i with
     | zero =>
       have hx : xs[0]? = some v := by
         rcases hrest with ⟨_, _, _, _, rfl⟩ | ⟨_, rfl⟩ <;> rfl
       simp only [hx, searchArr]
-      exact ⟨pos, rfl, r1, n, by omega, hv, hfollow⟩
+      exact ⟨pos, rfl, r1, n, by omega, hv, hfollow, hwf2.1⟩
     | succ i =>
       have hskip := skipFast_of_parse hv hfollow
       rw [searchArr]
       rcases hrest with ⟨t', xs', hc, hel, rfl⟩ | ⟨hc, rfl⟩
-      · have := ih (by omega) i t' xs' r hel
+      · have := ih (by omega) i t' xs' r hel (hwf2.2 _ rfl)
         simp [hskip, hc]
         exact this
       · simp [hskip, hc]
@@ -165,7 +185,7 @@ theorem getByPath_locate (F : Nat) : ∀ (p : Path) (v : JVal) (pos rest : Bytes
   intro p
   induction p with
   | nil =>
-    intro v pos rest ⟨m, hm, hp, hf⟩ val
+    intro v pos rest ⟨m, hm, hp, hf, hw⟩ val
     have e : ∀ b : Bool, getByPath b F [] pos = .found (skipWs pos, rest) := by
       intro b
       cases b
@@ -175,7 +195,7 @@ theorem getByPath_locate (F : Nat) : ∀ (p : Path) (v : JVal) (pos rest : Bytes
     simp only [locateR, Agrees]
     exact ⟨skipWs pos, rest, e val, m, hm, hp, hf⟩
   | cons e p' ih =>
-    intro v pos rest ⟨m, hm, hp, hf⟩ val
+    intro v pos rest ⟨m, hm, hp, hf, hw⟩ val
     cases m with
     | zero => rw [parseVal_zero] at hp; cases hp
     | succ n =>
@@ -201,7 +221,7 @@ theorem getByPath_locate (F : Nat) : ∀ (p : Path) (v : JVal) (pos rest : Bytes
         rw [searchObj]; simp [h0]
       | obj t kvs hs _ hmem hv =>
         subst hv
-        have hA := searchObj_members (F' + 1) k n (by omega) (F' + 1) (by omega) t kvs rest hmem
+        have hA := searchObj_members (F' + 1) k n (by omega) (F' + 1) (by omega) t kvs rest hmem (by simpa [keysWF] using hw)
         simp only [locateR]
         cases hlk : lookupKey k kvs with
         | none =>
@@ -236,7 +256,7 @@ theorem getByPath_locate (F : Nat) : ∀ (p : Path) (v : JVal) (pos rest : Bytes
         subst hv
         by_cases hi : i < 0
         · simp [locateR, Agrees, getByPath, hs, hi]
-        · have hB := searchArr_elems (F' + 1) n (by omega) i.toNat (skipWs t) xs rest (by rw [skipWs_idem]; exact hel)
+        · have hB := searchArr_elems (F' + 1) n (by omega) i.toNat (skipWs t) xs rest (by rw [skipWs_idem]; exact hel) (by simpa [keysWF] using hw)
           cases hsk : skipWs t with
           | nil => rw [hsk, parseElems_nil] at hel; cases hel
           | cons c' t' =>
